@@ -110,11 +110,16 @@ def run_small(pv, res):
                 f = check_string(pv, 'time', s, res)
                 if f:
                     res.fail({'layer': 'string', 'type': 'time', 's': s}, f[0], f[1])
-    for s in NUMBERS:
+    for s in NUMBERS + ['１２', '1٫5', '1２', '²', '1\u200b']:
         for t in ('number', 'range'):
             f = check_string(pv, t, s, res)
             if f:
                 res.fail({'layer': 'string', 'type': t, 's': s}, f[0], f[1])
+    for t, s in (('date', '２０２０-01-01'), ('date', '2020-0１-01'), ('month', '2020-١٢'), ('week', '2020-W１0'), ('time', '１0:00'), ('time', '10:٣0'),
+                 ('datetime-local', '2020-01-01T１0:00'), ('date', '2020\u201001\u201001'), ('week', '2020-w10'), ('datetime-local', '2020-01-01t10:00')):
+        f = check_string(pv, t, s, res)
+        if f:
+            res.fail({'layer': 'string', 'type': t, 's': s}, f[0], f[1])
     dates = ['2020-02-29', '2019-02-29', '2000-02-29', '1900-02-29', '0001-01-01', '0000-01-01', '9999-12-31', '10000-01-01', '2020-04-31', '2020-12-31']
     times = ['00:00', '23:59', '24:00', '12:60', '1:00', '12:00:00']
     for d in dates:
